@@ -772,6 +772,8 @@ def v_append(ex, st, o, args, kwargs, node):
     if v.kind != "list":
         raise Unsupported("append on non-list")
     x = args[0]
+    if isinstance(st.get(x), OptV):
+        x = unwrap_opt(ex, st, st.get(x), "append")      # a list of numbers: the appended value must not be None here
     n = v.n
     st.put(o, v.with_(n=n + 1, at=lambda k: merge_val(to_z3(k) == to_z3(n), x, v.at(k))))
     return None
@@ -814,6 +816,17 @@ def vec_median(ex, st, v):
         if key2 is not None:
             global_fact(ex, bound)
     return m
+
+
+@vm("extend")
+def v_extend(ex, st, o, args, kwargs, node):
+    v = st.get(o)
+    w = st.get(args[0])
+    if v.kind != "list" or not isinstance(w, Vec):
+        raise Unsupported("extend: list.extend(vector) only")
+    n = v.n
+    st.put(o, v.with_(n=to_z3(n) + to_z3(w.n), at=lambda k, v=v, w=w, n=n: merge_val(to_z3(k) < to_z3(n), v.at(k), w.at(to_z3(k) - to_z3(n)))))
+    return None
 
 
 @vm("median")
@@ -910,6 +923,20 @@ def np_asarray(ex, st, args, kwargs, node):
         raise Unsupported("np.asarray(dtype=...) other than float of floats")
     used(ex, "np.asarray of an array (of that dtype) is the array")
     return args[0] if v.kind == "array" else st.alloc(v.with_(idx=None, kind="array"))
+
+
+@builtin("numpy.array")
+def np_array(ex, st, args, kwargs, node):
+    v = st.get(args[0])
+    if len(args) != 1 or set(kwargs) - {"dtype"}:
+        raise Unsupported("np.array(...) of this shape")
+    if isinstance(v, ListV):
+        items = [st.get(x) if isinstance(x, Ref) else x for x in v.items]
+        v = Vec(len(items), lambda k, items=items: _pick(items, k), kind="list")
+    if not isinstance(v, Vec):
+        raise Unsupported("np.array of a non-sequence")
+    used(ex, "np.array(sequence of numbers) = the same numbers as an array")
+    return st.alloc(v.with_(idx=None, kind="array"))
 
 
 @builtin("numpy.minimum.accumulate", "numpy.maximum.accumulate")
